@@ -7,7 +7,9 @@
 //
 // modes: replay (NDJSON behaviours), stress (free-running seeded fault injection, monitors only),
 //
-//	packlogs (PackLogs grouping/order on seeded canonical log lists).
+//	packlogs (PackLogs grouping/order on seeded canonical log lists),
+//	record (record.go: free-running executions under a seeded random environment, recorded as NDJSON events at the
+//	node's RPC boundary and at the consumer for spec/LogStreamTrace.tla).
 package main
 
 import (
@@ -129,6 +131,7 @@ type request struct {
 type liveSub struct {
 	n  *rpc.Notifier
 	id rpc.ID
+	no int // record mode: running number of the subscription
 }
 
 type fakeEth struct {
@@ -143,6 +146,8 @@ type fakeEth struct {
 	nSubscribe  int32
 	// stress mode: decide immediately instead of gating
 	auto func(r *request) decision
+	// record mode (record.go): the handlers decide, log and answer under the recorder's mutex
+	rec *recWorld
 }
 
 var errInjected = errors.New("injected failure")
@@ -180,6 +185,9 @@ func (f *fakeEth) GetLogs(ctx context.Context, crit filters.FilterCriteria) ([]*
 		return nil, errors.New("fake node: open block range")
 	}
 	from, to := crit.FromBlock.Uint64(), crit.ToBlock.Uint64()
+	if f.rec != nil {
+		return f.rec.getLogs(ctx, crit, from, to)
+	}
 	d, err := f.gate(ctx, &request{typ: "getLogs", from: from, to: to, reply: make(chan decision, 1)})
 	if err != nil {
 		return nil, err
@@ -206,6 +214,9 @@ func (f *fakeEth) NewHeads(ctx context.Context) (*rpc.Subscription, error) {
 	notifier, ok := rpc.NotifierFromContext(ctx)
 	if !ok {
 		return nil, rpc.ErrNotificationsUnsupported
+	}
+	if f.rec != nil {
+		return f.rec.newHeads(ctx, notifier)
 	}
 	r := &request{typ: "subscribe", reply: make(chan decision, 1), ack: make(chan struct{})}
 	d, err := f.gate(ctx, r)
@@ -256,14 +267,24 @@ type trackListener struct {
 	net.Listener
 	mu    sync.Mutex
 	conns []net.Conn
+	// record mode: called with the accepted connection before it is served (numbers and logs it)
+	onAccept func(c net.Conn)
+}
+
+func (l *trackListener) track(c net.Conn) {
+	l.mu.Lock()
+	l.conns = append(l.conns, c)
+	l.mu.Unlock()
 }
 
 func (l *trackListener) Accept() (net.Conn, error) {
 	c, err := l.Listener.Accept()
 	if err == nil {
-		l.mu.Lock()
-		l.conns = append(l.conns, c)
-		l.mu.Unlock()
+		if l.onAccept != nil {
+			l.onAccept(c)
+		} else {
+			l.track(c)
+		}
 	}
 	return c, err
 }
@@ -379,6 +400,9 @@ type world struct {
 	logger  *zap.Logger
 	batch   uint64
 	follow  uint64
+	// record mode
+	onEntry func(bl executionclient.BlockLogs) // called by the handler for every entry it receives
+	lastRet uint64                             // what the handler returned last (atomic)
 }
 
 // HandleBlockEventsStream is the recording stand-in for eventhandler.EventHandler (same contract: consume the
@@ -386,6 +410,9 @@ type world struct {
 func (w *world) HandleBlockEventsStream(logs <-chan executionclient.BlockLogs, executeTasks bool) (uint64, error) {
 	var last uint64
 	for bl := range logs {
+		if w.onEntry != nil {
+			w.onEntry(bl)
+		}
 		head := w.f.Head()
 		w.mu.Lock()
 		w.mon.onEntry(bl, head)
@@ -401,10 +428,11 @@ func (w *world) HandleBlockEventsStream(logs <-chan executionclient.BlockLogs, e
 		}
 		last = bl.BlockNumber
 	}
+	atomic.StoreUint64(&w.lastRet, last)
 	return last, nil
 }
 
-func newWorld(ch *chain, head0, start, batch, follow uint64, viol func(sig, desc string)) (*world, error) {
+func newWorld(ch *chain, head0, start, batch, follow uint64, viol func(sig, desc string), prep ...func(w *world)) (*world, error) {
 	w := &world{notify: make(chan struct{}, 1), ongoing: make(chan struct{}), batch: batch, follow: follow}
 	w.f = &fakeEth{head: head0, ch: ch, reqs: make(chan *request, 64), done: make(chan struct{})}
 	w.mon = &monitor{ch: ch, start: start, follow: follow, withLog: map[uint64]bool{}, viol: viol}
@@ -415,6 +443,9 @@ func newWorld(ch *chain, head0, start, batch, follow uint64, viol func(sig, desc
 	w.srv = httptest.NewUnstartedServer(w.rs.WebsocketHandler([]string{"*"}))
 	w.tl = &trackListener{Listener: w.srv.Listener}
 	w.srv.Listener = w.tl
+	for _, p := range prep { // record mode installs its hooks before the first connection
+		p(w)
+	}
 	w.srv.Start()
 	w.url = "ws:" + strings.TrimPrefix(w.srv.URL, "http:")
 	core := zapcore.NewCore(zapcore.NewJSONEncoder(zap.NewProductionEncoderConfig()), zapcore.AddSync(io.Discard), zapcore.ErrorLevel)
@@ -1280,7 +1311,9 @@ func merge(res *vh.Result, o behOut) {
 }
 
 func main() {
-	mode := flag.String("mode", "replay", "replay | stress | packlogs")
+	mode := flag.String("mode", "replay", "replay | stress | packlogs | record")
+	tracePath := flag.String("trace", "", "recorded events NDJSON (record)")
+	kills := flag.Bool("kills", true, "record: shut the client down at random moments (ExecutionClient.Close)")
 	in := flag.String("in", "", "behaviours NDJSON (replay)")
 	outp := flag.String("out", "", "result JSON")
 	workers := flag.Int("workers", 12, "concurrent worlds")
@@ -1383,6 +1416,11 @@ func main() {
 		}
 	case "packlogs":
 		packlogs(*seed, *runs, res)
+	case "record":
+		if err := record(*seed, *runs, *workers, *maxViol, *tracePath, *kills, res); err != nil {
+			fmt.Fprintln(os.Stderr, err)
+			os.Exit(2)
+		}
 	default:
 		fmt.Fprintln(os.Stderr, "unknown mode")
 		os.Exit(2)
